@@ -167,6 +167,21 @@ def run_case(desc, V):
         w = A1.multivector(keys=(1, 2 ** d - 1), values=[5, 7])
         (u * w) + (w ^ u) - (u | w)
         ~u
+        # ... and the SAME operator with other patterns next to one unchanged operand pattern (generated functions whose
+        # names do not tell all operand patterns apart would now be replaced)
+        if desc['kind'] in ('binary', 'unary'):
+            from kingdon.multivector import MultiVector
+            alts = [(1,), (0,), (2 ** d - 1,), tuple(k for k in range(2 ** d) if bin(k).count('1') == 2)[:3] or (0, 1), (0, 1, 2 ** d - 1)]
+            fixed_a = MultiVector.fromkeysvalues(A1, tuple(desc['ka']), [3 + i for i in range(len(desc['ka']))])
+            fixed_b = MultiVector.fromkeysvalues(A1, tuple(desc.get('kb') or desc['ka']), [2 + i for i in range(len(desc.get('kb') or desc['ka']))])
+            for alt in alts:
+                m = MultiVector.fromkeysvalues(A1, alt, [2 + 3 * i for i in range(len(alt))])
+                for call in ((lambda: ops.call_binary(desc['op'], m, fixed_b, 'method')), (lambda: ops.call_binary(desc['op'], fixed_a, m, 'method'))) \
+                        if desc['kind'] == 'binary' else ((lambda: ops.call_unary(desc['op'], m, 'method')),):
+                    try:
+                        call()
+                    except Exception:  # noqa  (null / singular alternatives: only their side effect on the name space matters)
+                        pass
     for c in _body(desc, V, A0, A1):
         if isinstance(c, (Eq, Fail)):
             c.label = 'recall:' + c.label
